@@ -190,6 +190,8 @@ type Sim struct {
 	sig        uint64
 	SwitchPair map[[2]uint32]struct{}
 	Trace      []TraceEv
+	Tail       []TraceEv // the last TraceTail decisions beyond TraceCap (debugging aid, not hashed)
+	TraceTail  int
 	TraceCap   int
 	NSync      int
 	NPlainPre  int
@@ -866,6 +868,9 @@ func (s *Sim) run() Outcome {
 			// the system is making progress, this is not a spin loop starving a timer
 			s.seqAtStep = s.seq
 			s.sinceAdvance = 0
+			// ... and the escalation of forced waits starts over: it is meant to reach the idle budget of a
+			// system that is stuck, not to add up over the many short waits of one that keeps going
+			s.forceQuantum = 0
 		}
 		// let time pass?
 		adv := time.Duration(-1)
@@ -1042,6 +1047,12 @@ func roleOf(name string) string {
 func (s *Sim) traceEv(e TraceEv) {
 	if len(s.Trace) < s.TraceCap {
 		s.Trace = append(s.Trace, e)
+	} else if s.TraceTail > 0 {
+		// (debugging aid: keep the most recent decisions as well)
+		if len(s.Tail) >= s.TraceTail {
+			s.Tail = s.Tail[1:]
+		}
+		s.Tail = append(s.Tail, e)
 	}
 }
 
@@ -1054,6 +1065,12 @@ func (s *Sim) describeAlive() string {
 		}
 		st := [...]string{"running", "parked", "blocked", "done"}[t.state]
 		out += fmt.Sprintf(" %s:%s@%d", t.Name, st, t.point)
+		if t.held {
+			out += "(held)"
+		}
+		if t.state == stParked && !s.enabled(t) {
+			out += fmt.Sprintf("(not enabled: wait kind %d)", t.wk)
+		}
 		if t.state == stParked && (t.wk == wkMutexW || t.wk == wkMutexR) {
 			if sh := s.mutexes.get(up(t.want)); sh != nil {
 				if sh.writer != nil {
